@@ -77,7 +77,7 @@ def make_recipe(rng, tier):
         point_penalty_scale=float(rng.choice([0.1, 0.3, 0.6, 1.0, 2.0])), min_segment_length=m,
         max_segment_length=int(rng.integers(m, 40)), ignore_point_anomalies=False)
     return {"det": spec, "X": X, "index": INDEX_KINDS[int(rng.integers(5))],
-            "columns": "strings" if rng.random() < 0.5 else "default"}
+            "columns": ["default", "strings", "duplicate", "printsame"][int(rng.integers(4))]}
 
 
 def exec_case(ctx, r):
